@@ -32,6 +32,10 @@ class LeafError(Exception):
     pass
 
 
+# attributes of typed model records
+ATTRS = {"bpm": {"tick": ("b_tick", "int"), "bpm": ("b_bpm", "float"), "timestamp": ("b_ts", "ts")}}
+
+
 def find_function(tree, qual):
     parts = qual.split(".")
     body = tree.body
@@ -76,8 +80,19 @@ class Tr:
             if e.value is None:
                 return "None", "none", False
             self.err(e, "constant")
+        if isinstance(e, ast.Attribute):
+            c, t, m = self.expr(e.value)
+            if not m and t in ATTRS and e.attr in ATTRS[t]:
+                fld, ft = ATTRS[t][e.attr]
+                return "(%s %s)" % (fld, c), ft, False
+            self.err(e, "attribute")
         if isinstance(e, ast.Call):
             fsrc = ast.unparse(e.func)
+            if fsrc == "len" and len(e.args) == 1:
+                c, t, m = self.expr(e.args[0])
+                if t.startswith("list:") and not m:
+                    return "(Zlength_ %s)" % c, "int", False
+                self.err(e, "len of non-sequence")
             if fsrc in WRAPPERS and len(e.args) == 1 and not e.keywords:
                 return self.expr(e.args[0])
             if fsrc == "abs" and len(e.args) == 1:
@@ -162,7 +177,7 @@ class Tr:
             a, ta, ma = self.expr(e.value)
             i, ti, mi = self.expr(e.slice)
             if ta.startswith("list:") and ti == "int" and not ma and not mi:
-                return "(match nth_Z %s %s with Some x => Ok x | None => Err EIndex end)" % (a, i), ta[5:], True
+                return "(seq_get %s %s)" % (a, i), ta[5:], True
             self.err(e, "subscript")
         if isinstance(e, ast.Tuple):
             cs = []
@@ -234,6 +249,24 @@ class Tr:
             self.env[tgt.id] = (tgt.id, t)
             k = self.block(rest)
             return ("let* %s := %s in\n  %s" if m else "let %s := %s in\n  %s") % (tgt.id, c, k)
+        if isinstance(s, ast.For):
+            # for V in range(A, B):  if C: return V      followed by      return D
+            if (isinstance(s.target, ast.Name) and isinstance(s.iter, ast.Call) and ast.unparse(s.iter.func) == "range" and len(s.iter.args) == 2
+                    and not s.orelse and len(s.body) == 1 and isinstance(s.body[0], ast.If) and not s.body[0].orelse
+                    and len(s.body[0].body) == 1 and isinstance(s.body[0].body[0], ast.Return)
+                    and ast.unparse(s.body[0].body[0].value) == s.target.id
+                    and len(rest) == 1 and isinstance(rest[0], ast.Return)):
+                a, ta, ma = self.expr(s.iter.args[0])
+                b, tb, mb = self.expr(s.iter.args[1])
+                if ta != "int" or tb != "int" or ma or mb:
+                    self.err(s, "range bounds")
+                saved = dict(self.env)
+                self.env[s.target.id] = (s.target.id, "int")
+                test = self.cond_result(s.body[0].test)
+                self.env = saved
+                d = self.ret(rest[0].value)
+                return "for_first %s %s (fun %s => %s) (%s)" % (a, b, s.target.id, test, d)
+            self.err(s, "for loop shape")
         if isinstance(s, ast.If):
             # narrowing:  if x is None: <returns>   =>   match x with None => … | Some x => rest end
             t = s.test
@@ -259,6 +292,38 @@ class Tr:
                 return "if %s then %s else %s" % (c, then, self.block(s.orelse))
             return "if %s then %s else\n  %s" % (c, then, self.block(rest))
         self.err(s, "statement")
+
+    def cond_result(self, test):
+        """A loop test as a `result bool`: comparisons whose operands may raise (indexing) are sequenced."""
+        if isinstance(test, ast.Compare) and len(test.ops) == 1:
+            l, r = test.left, test.comparators[0]
+            binds = []
+            def atom(e):
+                c, t, m = self.expr(e)
+                if m:
+                    self.fresh += 1
+                    v = "x%d" % self.fresh
+                    binds.append((v, c))
+                    self.env["__tmp_" + v] = (v, t)
+                    return ast.Name(id="__tmp_" + v, ctx=ast.Load())
+                return e
+            def lift(e):
+                # only the pattern  <indexing>.attr  needs sequencing
+                if isinstance(e, ast.Attribute):
+                    inner = atom(e.value)
+                    return ast.Attribute(value=inner, attr=e.attr, ctx=ast.Load())
+                return e
+            l2, r2 = lift(l), lift(r)
+            code = self.compare(l2, test.ops[0], r2, test)
+            for v, c in reversed(binds):
+                code = "let* %s := %s in Ok %s" % (v, c, code) if binds[-1][0] == v else "let* %s := %s in %s" % (v, c, code)
+            if not binds:
+                code = "Ok %s" % code
+            return code
+        c, t, m = self.expr(test)
+        if t != "bool" or m:
+            self.err(test, "loop test")
+        return "Ok %s" % c
 
     def function(self, fn, params, monadic_fn, narrow=None):
         self.monadic_fn = monadic_fn
@@ -350,14 +415,19 @@ def group_query():
              "chartparse.tick.seconds_from_ticks_at_bpm": ("leaf_seconds", ["int", "float", "int"], "float", True),
              "chartparse.time.add": ("time_add_seconds", ["ts", "float"], "ts", True)}
     t = Tr("leaf_timestamp_at_tick", env, calls, "tuple")
-    return [t.function(f, [("B", "bpm_events"), ("tick", "Z"), ("h", "Z")], True)]
+    out = [t.function(f, [("B", "bpm_events"), ("tick", "Z"), ("h", "Z")], True)]
+    f = find_function(tree, "BPMEvents._index_of_proximal_event")
+    env2 = {"tick": ("tick", "int"), "start_iteration_index": ("h", "int"), "self": ("es", "list:bpm")}
+    t2 = Tr("leaf_index_of_proximal", env2, {}, "int")
+    out.insert(0, t2.function(f, [("es", "list bpm_event"), ("tick", "Z"), ("h", "Z")], True))
+    return out
 
 
 GROUPS = [
     ("Leaf_tick", group_tick, "From CP Require Import Base.Prelude Base.Float64.\nOpen Scope Z_scope.\n"),
     ("Leaf_special", group_special, "From CP Require Import Base.Prelude Base.Float64 Model.Sync Model.Instrument Gen.Leaf_tick.\nOpen Scope Z_scope.\n"),
     ("Leaf_hopo", group_hopo, "From CP Require Import Base.Prelude Base.Float64 Model.Sync Model.Instrument Gen.Leaf_tick Gen.Leaf_special.\nOpen Scope Z_scope.\n"),
-    ("Leaf_query", group_query, "From CP Require Import Base.Prelude Base.Float64 Base.Timedelta Model.Sync Gen.Leaf_tick.\nOpen Scope Z_scope.\n"),
+    ("Leaf_query", group_query, "From CP Require Import Base.Prelude Base.Loops Base.Float64 Base.Timedelta Model.Sync Gen.Leaf_tick.\nOpen Scope Z_scope.\n"),
 ]
 
 
